@@ -10,6 +10,7 @@ import (
 	"sort"
 	"strings"
 	"sync"
+	"time"
 
 	"github.com/33cn/chain33/blockchain"
 	"github.com/33cn/chain33/client"
@@ -22,6 +23,7 @@ import (
 	"github.com/33cn/chain33/executor"
 	_ "github.com/33cn/chain33/system" // register drivers, consensus, store, crypto
 	cty "github.com/33cn/chain33/system/dapp/coins/types"
+	drivers "github.com/33cn/chain33/system/dapp"
 	mty "github.com/33cn/chain33/system/dapp/manage/types"
 	"github.com/33cn/chain33/types"
 	"github.com/33cn/chain33/util"
@@ -116,9 +118,12 @@ func newNode(v variant, mvccInNode bool) *node {
 	if m == nil {
 		fixturef("testnode did not start")
 	}
-	if err := m.WaitHeightTimeout(0, 60); err != nil {
-		m.Close()
-		fixturef("no genesis block: %v", err)
+	for i := 0; m.GetBlockChain().GetBlockHeight() < 0; i++ { // genesis is written by the consensus module at start
+		if i > 30000 {
+			m.Close()
+			fixturef("no genesis block after 60 s")
+		}
+		time.Sleep(2 * time.Millisecond)
 	}
 	return &node{Chain33Mock: m, cfg: m.GetClient().GetConfig(), api: m.GetAPI(), chain: m.GetBlockChain(), db: m.GetBlockChain().GetDB(), mvccInNode: mvccInNode}
 }
@@ -386,8 +391,8 @@ type universe struct {
 	stateRoot [][]byte // state hashes (mvcc version per hash)
 	stateKeys []string
 	seenKey   map[string]bool
-	versions  int64 // versions 0..versions are probed
-	cfgKeys   []string
+	versions  int64    // versions 0..versions are probed
+	hot       []string // addresses also observed through the node's API (the block under test's from/to addresses)
 }
 
 func newUniverse() *universe {
@@ -431,45 +436,63 @@ func render(m types.Message, err error) obs {
 }
 
 // snap evaluates every query of the property's list over the universe:
-//   tx lookup by hash; per-address tx lists (all / from / to, both directions) and counts; address overview
-//   (received total + tx count, as the RPC layer reports them); coins AddrReciver; per-address fee list; total fee
-//   per block hash; MVCC GetVersion / GetVersionHash / GetMaxVersion / GetV(key, version); manage proposal lists
-//   and config items; the plugin flags.
-// Absent and zero are the same observation for the two counters (GetAddrOverview reports 0 for both).
+//   tx lookup by hash; per-address tx lists (all / from / to, both directions) and counts; coins AddrReciver;
+//   per-address fee list; manage proposal lists; total fee per block hash; the plugin flags;
+//   MVCC GetVersion / GetVersionHash / GetMaxVersion / GetV(key, version).
+// The per-address executor queries are evaluated by the executors' own Query functions (the code
+// Executor.procExecQuery dispatches to) on a driver whose local db is the blockchain db: the node's message path
+// costs ~10 ms per executor query on this tree, so it is used only for the addresses the block under test touches
+// ("hot": GetAddrOverview and GetTransactionByAddr exactly as RPC clients get them). Tx lookup, total fee and flags
+// always go through the node's API.
+// Absent and zero are the same observation for the received total (GetAddrOverview reports 0 for both).
 func (n *node) snap(u *universe) snapshot {
 	s := snapshot{}
 	for _, h := range u.txs {
 		s["tx:"+hex.EncodeToString(h)] = render(n.api.QueryTx(&types.ReqHash{Hash: h}))
 	}
+	local := dbm.NewKVDB(n.db)
+	height := n.chain.GetBlockHeight()
+	query := func(driver, fn string, param types.Message) obs {
+		d, err := drivers.LoadDriver(driver, height)
+		if err != nil {
+			fixturef("LoadDriver %s: %v", driver, err)
+		}
+		d.SetLocalDB(local)
+		d.SetAPI(n.api)
+		m, err := d.Query(fn, types.Encode(param))
+		if fn == "GetAddrReciver" && err == types.ErrEmpty {
+			m, err = &types.Int64{}, nil
+		}
+		return render(m, err)
+	}
 	for _, a := range u.addrs {
 		for flag := int32(0); flag <= 2; flag++ {
 			for dir := int32(0); dir <= 1; dir++ {
-				s[fmt.Sprintf("addrtx:%s:flag%d:dir%d", a, flag, dir)] = render(n.api.GetTransactionByAddr(
-					&types.ReqAddr{Addr: a, Flag: flag, Count: 1000, Direction: dir, Height: -1}))
+				s[fmt.Sprintf("addrtx:%s:flag%d:dir%d", a, flag, dir)] = query("coins", "GetTxsByAddr",
+					&types.ReqAddr{Addr: a, Flag: flag, Count: 1000, Direction: dir, Height: -1})
 			}
 		}
-		s["overview:"+a] = render(n.api.GetAddrOverview(&types.ReqAddr{Addr: a}))
-		m, err := n.api.Query("coins", "GetAddrReciver", &types.ReqAddr{Addr: a})
-		if err == types.ErrEmpty {
-			m, err = &types.Int64{}, nil
-		}
-		s["recv:"+a] = render(m, err)
-		s["txcount:"+a] = render(n.api.Query("coins", "GetAddrTxsCount", &types.ReqKey{Key: types.CalcAddrTxsCountKey(a)}))
+		s["recv:"+a] = query("coins", "GetAddrReciver", &types.ReqAddr{Addr: a})
+		s["txcount:"+a] = query("coins", "GetAddrTxsCount", &types.ReqKey{Key: types.CalcAddrTxsCountKey(a)})
 		for dir := int32(0); dir <= 1; dir++ {
-			s[fmt.Sprintf("feelist:%s:dir%d", a, dir)] = render(n.api.Query("coins", "GetTxsFeeByAddr",
-				&types.ReqAddr{Addr: a, Count: 1000, Direction: dir, Height: -1}))
+			s[fmt.Sprintf("feelist:%s:dir%d", a, dir)] = query("coins", "GetTxsFeeByAddr",
+				&types.ReqAddr{Addr: a, Count: 1000, Direction: dir, Height: -1})
 		}
 		for status := int32(0); status <= 1; status++ {
-			s[fmt.Sprintf("proposals:%s:status%d", a, status)] = render(n.api.Query("manage", "ListConfigID",
-				&mty.ReqQueryConfigList{Proposer: a, Status: status, Count: 100, Direction: 0}))
+			s[fmt.Sprintf("proposals:%s:status%d", a, status)] = query("manage", "ListConfigID",
+				&mty.ReqQueryConfigList{Proposer: a, Status: status, Count: 100, Direction: 0})
 		}
+	}
+	for _, a := range u.hot {
+		s["overview:"+a] = render(n.api.GetAddrOverview(&types.ReqAddr{Addr: a}))
+		s["api-addrtx:"+a] = render(n.api.GetTransactionByAddr(&types.ReqAddr{Addr: a, Flag: 0, Count: 1000, Direction: 0, Height: -1}))
 	}
 	for _, h := range u.blocks {
 		s["totalfee:"+hex.EncodeToString(h)] = n.localGet(types.TotalFeeKey(h), &types.TotalFee{})
 	}
 	s["flag:mvcc"] = n.localGet(types.FlagKeyMVCC, &types.Int64{})
 	s["flag:stat"] = n.localGet(types.StatisticFlag(), &types.Int64{})
-	mv := dbm.NewSimpleMVCC(dbm.NewKVDB(n.db))
+	mv := dbm.NewSimpleMVCC(local)
 	verObs := func(v int64, err error) obs {
 		if err != nil {
 			return obs{"err:" + err.Error(), "error: " + err.Error()}
@@ -491,9 +514,6 @@ func (n *node) snap(u *universe) snapshot {
 		for _, k := range u.stateKeys {
 			s[fmt.Sprintf("mvcc:getv:%s@%d", k, v)] = bytesObs(mv.GetV([]byte(k), v))
 		}
-	}
-	for _, k := range u.cfgKeys {
-		s["config:"+k] = render(n.api.Query("manage", "GetConfigItem", &types.ReqString{Data: k}))
 	}
 	return s
 }
